@@ -27,6 +27,7 @@ RULE = (
     "label or peptide; distinct = case parameters."
     " cli_multi: the command-line tool on 2..3 PIN files named in non-sorted order (with / without --file_root, 1..2 workers): per-stem result files hold that file's PSMs only and are judged like a single collection."
     " rollup_tool collections are named set<i> / rollup_<i> / run<i> with --file_root run / set<i> with --file_root se."
+    " Every third confidence table has a quarter of its PSMs without protein annotation (empty cell)."
 )
 ASSUMPTIONS = [
     "output column names are read from the written header; only PSMId, peptide, proteinIds, score, q-value and the level columns are interpreted",
@@ -146,6 +147,12 @@ def run_confidence(case):
             s = tab["df"]["info0"].values + 0.5 * tab["df"]["noise0"].values
             if ties:
                 s = np.round(s)
+            if case["index"] % 3 == 2:
+                # a quarter of the PSMs carry no protein annotation (an empty cell): a retained row must still be the
+                # row of one input PSM, empty cell included
+                gone = rng.random(len(tab["df"])) < 0.25
+                tab["df"]["Proteins"] = tab["df"]["Proteins"].astype(object)
+                tab["df"].loc[gone, "Proteins"] = np.nan
             tabs.append(tab)
             scores.append(s.astype(float))
             paths.append(psm.write_parquet(tab, d / f"c{ci}.parquet", row_group_size=int(rng.integers(3, 300)))
